@@ -154,7 +154,9 @@ def stampTrigs (cfg : Cfg) (u : Uid) (refs : List Addr) (h : Heap) : Heap :=
 /-! ## deep copy -/
 
 /-- `copy.deepcopy(trigger)` followed by `fT` on the copy and `fC` on each copied component.
-Fresh addresses for the trigger and for every component; stamps (`_uuid`, nested list UUID) are carried over. -/
+Fresh addresses for the trigger and for every component.  The trigger's `_uuid` and the nested lists' UUID are
+carried over; the copied components are stamped with the **nested list's** UUID (`UuidList.__deepcopy__` fills the
+copy with `result[:] = …`, i.e. through the overridden `__setitem__`, which re-stamps). -/
 def copyTrig (fT : Trig → Trig) (fC : Comp → Comp) (h : Heap) (a : Addr) : Option (Heap × Addr) :=
   match h.trigs[a]? with
   | none => none
@@ -163,7 +165,7 @@ def copyTrig (fT : Trig → Trig) (fC : Comp → Comp) (h : Heap) (a : Addr) : O
     | none => none
     | some cs =>
       some ({ trigs := h.trigs ++ [{ fT t with comps := List.range' h.comps.length cs.length }]
-              comps := h.comps ++ cs.map fC }, h.trigs.length)
+              comps := h.comps ++ cs.map (fun c => fC { c with uuid := t.compsU }) }, h.trigs.length)
 
 /-- copy a list of triggers one by one (`fT k` is applied to the copy of the k-th) -/
 def copyTrigs (fT : Nat → Trig → Trig) (fC : Comp → Comp) : Nat → Heap → List Addr → Option (Heap × List Addr)
@@ -200,16 +202,14 @@ def ownEach (u : Uid) : Heap → List Addr → Option (Heap × List Addr)
 
 /-- `UuidList(uuid, seq, on_update_execute_entry=…)` as the `triggers` setter calls it: returns the new heap and
 the entries of the new list -/
-def ctor (cfg : Cfg) (copyFirst : Bool) (u : Uid) (h : Heap) (seq : List Addr) : Option (Heap × List Addr) :=
+def ctor (cfg : Cfg) (u : Uid) (h : Heap) (seq : List Addr) : Option (Heap × List Addr) :=
   match seq with
   | [] => some (h, [])
   | a0 :: _ =>
     let copied : Option (Heap × List Addr) :=
-      if copyFirst then ownEach u h seq
-      else
-        match h.trigs[a0]? with
-        | none => none
-        | some t0 => if isForeign u t0 then copyTrigs (fun _ t => t) id 0 h seq else some (h, seq)
+      match h.trigs[a0]? with
+      | none => none
+      | some t0 => if isForeign u t0 then copyTrigs (fun _ t => t) id 0 h seq else some (h, seq)
     match copied with
     | none => none
     | some (h1, seq1) => some (stampTrigs cfg u seq1 h1, seq1)
@@ -305,7 +305,7 @@ def importTriggers (cfg : Cfg) (w : World) (u : Uid) (refs : List Addr) : Except
           .ok ({ w with heap := stampTrigs cfg u copies h1, trigsOf := setFn w.trigsOf u (l ++ copies) }, copies)
         else
           -- `self.triggers += triggers`: `list.__iadd__` (no stamping) and then the setter on the whole list
-          match ctor cfg false u h1 (l ++ copies) with
+          match ctor cfg u h1 (l ++ copies) with
           | none => .error .badRef
           | some (h2, held) => .ok ({ w with heap := h2, trigsOf := setFn w.trigsOf u held }, copies)
 
@@ -358,35 +358,33 @@ def removeTrigger (w : World) (u : Uid) (i : Nat) : Except Err (World × Addr) :
       | none => .error .badRef
       | some h2 => .ok ({ w with heap := h2, trigsOf := setFn w.trigsOf u l }, a)
 
-/-- the `UuidList` entry points of the manager's list and the `triggers` setter -/
-def adopt (cfg : Cfg) (w : World) (u : Uid) (how : How) (refs : List Addr) (copyFirst : Bool) : Except Err World :=
-  if ¬ refs.all (fun a => a < w.heap.trigs.length) then .error .badRef
+/-- the `UuidList` entry points of the manager's list and the `triggers` setter.
+`copyFirst` = the caller first replaces every entry that carries a foreign stamp by a `copy.deepcopy` of it
+(what a copy-on-foreign `UuidList` would do itself); the entry point proper is the pinned code. -/
+def adopt (cfg : Cfg) (w : World) (u : Uid) (how : How) (refs0 : List Addr) (copyFirst : Bool) : Except Err World :=
+  if ¬ refs0.all (fun a => a < w.heap.trigs.length) then .error .badRef
   else
-    let l := w.trigsOf u
-    -- in-place entry points: optional copy of foreign entries, list surgery, stamping of the new entries only
-    let inPlace (mk : List Addr → Except Err (List Addr)) : Except Err World :=
-      match (if copyFirst then ownEach u w.heap refs else some (w.heap, refs)) with
-      | none => .error .badRef
-      | some (h1, refs1) =>
-        match mk refs1 with
-        | .error e => .error e
-        | .ok l' => .ok { w with heap := stampTrigs cfg u refs1 h1, trigsOf := setFn w.trigsOf u l' }
-    let viaSetter (seq : List Addr) : Except Err World :=
-      match ctor cfg copyFirst u w.heap seq with
-      | none => .error .badRef
-      | some (h1, held) => .ok { w with heap := h1, trigsOf := setFn w.trigsOf u held }
-    match how with
-    | .append => if refs.length = 1 then inPlace (fun r => .ok (l ++ r)) else .error .unsupported
-    | .insert pos => if refs.length = 1 then inPlace (fun r => .ok (l.take pos ++ r ++ l.drop pos)) else .error .unsupported
-    | .extend => inPlace (fun r => .ok (l ++ r))
-    | .setitem pos =>
-      if refs.length = 1 then
-        inPlace (fun r => match r with
-                          | [a] => if pos < l.length then .ok (l.set pos a) else .error .index
-                          | _ => .error .unsupported)
-      else .error .unsupported
-    | .iadd => viaSetter (l ++ refs)
-    | .assign => if refs.Nodup then viaSetter refs else .error .unsupported
+    match (if copyFirst then ownEach u w.heap refs0 else some (w.heap, refs0)) with
+    | none => .error .badRef
+    | some (h0, refs) =>
+      let l := w.trigsOf u
+      -- in-place entry points: list surgery, stamping of the new entries only
+      let inPlace (l' : List Addr) : Except Err World :=
+        .ok { w with heap := stampTrigs cfg u refs h0, trigsOf := setFn w.trigsOf u l' }
+      let viaSetter (seq : List Addr) : Except Err World :=
+        match ctor cfg u h0 seq with
+        | none => .error .badRef
+        | some (h1, held) => .ok { w with heap := h1, trigsOf := setFn w.trigsOf u held }
+      match how with
+      | .append => if refs.length = 1 then inPlace (l ++ refs) else .error .unsupported
+      | .insert pos => if refs.length = 1 then inPlace (l.take pos ++ refs ++ l.drop pos) else .error .unsupported
+      | .extend => inPlace (l ++ refs)
+      | .setitem pos =>
+        match refs with
+        | [a] => if pos < l.length then inPlace (l.set pos a) else .error .index
+        | _ => .error .unsupported
+      | .iadd => viaSetter (l ++ refs)
+      | .assign => if refs0.Nodup then viaSetter refs else .error .unsupported
 
 /-! ## save = commit + serialise the own sections -/
 
